@@ -44,12 +44,25 @@ class Project:
             pass
 
     def run(self, argv, cwd=".", env=None, timeout=60, stdin=None):
+        # own session: a scenario may kill its whole process group, and a timeout must not leave strays
+        import os, signal
+        p = subprocess.Popen(argv, cwd=self.path(cwd), env=clean_env(env), stdout=subprocess.PIPE, stderr=subprocess.PIPE,
+                             stdin=subprocess.DEVNULL if stdin is None else stdin, start_new_session=True)
         try:
-            r = subprocess.run(argv, cwd=self.path(cwd), env=clean_env(env), stdout=subprocess.PIPE, stderr=subprocess.PIPE,
-                               timeout=timeout, stdin=subprocess.DEVNULL if stdin is None else stdin)
-            return r.returncode, r.stdout.decode("utf-8", "replace"), r.stderr.decode("utf-8", "replace")
-        except subprocess.TimeoutExpired as e:
-            return -999, (e.stdout or b"").decode("utf-8", "replace"), (e.stderr or b"").decode("utf-8", "replace")
+            out, err = p.communicate(timeout=timeout)
+            rc = p.returncode
+        except subprocess.TimeoutExpired:
+            try:
+                os.killpg(p.pid, signal.SIGKILL)
+            except ProcessLookupError:
+                pass
+            out, err = p.communicate()
+            rc = -999
+        try:
+            os.killpg(p.pid, signal.SIGKILL)      # orphans of a killed tree
+        except (ProcessLookupError, PermissionError):
+            pass
+        return rc, out.decode("utf-8", "replace"), err.decode("utf-8", "replace")
 
     def destroy(self):
         shutil.rmtree(self.root, ignore_errors=True)
